@@ -1856,15 +1856,17 @@ class _FormatInferInstance(Visitor):
         # ``min(F.pos_bound, C.pos_bound)`` would then under-claim
         # the image's bound and be unsound.
         #
-        # The gate: when ``F.prec <= C.prec``, F.pos_bound has
-        # precision ≤ F.prec ≤ C.prec and is therefore exactly
-        # C-representable, so the intersection's bounds are sound.
-        # When ``F.prec > C.prec`` we fall back to C's bounds.
+        # The gate: when ``F.prec <= C.prec`` and F's quantum is no finer
+        # than C's, F.pos_bound has precision ≤ F.prec ≤ C.prec on C's
+        # grid and is therefore exactly C-representable, so the
+        # intersection's bounds are sound.  When ``F.prec > C.prec``, or
+        # F has digits below C's quantum (0.375 under an integer scope
+        # rounds to 1), we fall back to C's bounds.
         # ``int | float`` comparison works directly with the
         # ``float('inf')`` sentinel used for unbounded prec.
         prec = min(exact.prec, scope_af.prec)
         exp = max(exact.exp, scope_af.exp)
-        if exact.prec > scope_af.prec:
+        if exact.prec > scope_af.prec or exact.exp < scope_af.exp:
             pos_bound = scope_af.pos_bound
             neg_bound = scope_af.neg_bound
         else:
